@@ -59,38 +59,30 @@ fn position_fields(line: &str) -> (String, String, Vec<String>, bool) {
 /// Keys of the positions along `position ... moves ...` as the harness replays them on its own
 /// board (used only to ask the session board which earlier positions it remembers).
 fn prefix_keys(line: &str) -> Vec<ZKey> {
-    let toks: Vec<&str> = line.split_whitespace().collect();
-    let mut out = Vec::new();
-    if toks.first() != Some(&"position") || toks.len() < 2 {
-        return out;
+    let (start, fen, moves, wf) = position_fields(line);
+    if !wf {
+        return Vec::new();
     }
     let r = std::panic::catch_unwind(|| {
         let mut keys = Vec::new();
-        let (mut board, rest): (Board, &[&str]) = if toks[1] == "startpos" {
-            (BoardBuilder::construct_starting_board().build(), &toks[2..])
-        } else if toks[1] == "fen" && toks.len() >= 8 {
-            (Board::from_fen(&toks[2..8].join(" ")), &toks[8..])
+        let mut board = if start == "startpos" {
+            BoardBuilder::construct_starting_board().build()
         } else {
-            return keys;
+            Board::from_fen(&fen)
         };
         keys.push(board.zkey);
-        if rest.first() == Some(&"moves") {
-            for m in &rest[1..] {
-                match board.find_move(m) {
-                    Ok(p) => {
-                        board.make_move(p);
-                        keys.push(board.zkey);
-                    }
-                    Err(_) => break,
+        for m in &moves {
+            match board.find_move(m) {
+                Ok(p) => {
+                    board.make_move(p);
+                    keys.push(board.zkey);
                 }
+                Err(_) => break,
             }
         }
         keys
     });
-    if let Ok(k) = r {
-        out = k;
-    }
-    out
+    r.unwrap_or_default()
 }
 
 pub fn cmd_inproc(args: &Args) {
